@@ -161,6 +161,11 @@ func (p *ProposerConfig) UnmarshalJSON(input []byte) error {
 		minValue = minValue.Mul(weiPerETH)
 		p.MinValue = &minValue
 	}
+	for address, relay := range data.Relays {
+		if relay == nil {
+			return fmt.Errorf("relay %s has no configuration", address)
+		}
+	}
 	p.ResetRelays = data.ResetRelays
 	p.Relays = data.Relays
 
